@@ -20,14 +20,17 @@ EXTENDS Naturals, Sequences, FiniteSets, TLC
 CRLF == "\r\n"
 
 (* Equalities of denotation that RFC 3501 states: INBOX in any case is one
-   name; searched strings, header field names and charset names are
-   case-insensitive; the two ends of a range are unordered. *)
+   name; searched strings, header field names, charset and mechanism names
+   and system flags are case-insensitive; the two ends of a range are
+   unordered. *)
 FoldPairs == {
     <<"m:INBOX", "m:inbox">>, <<"m:InBoX", "m:inbox">>,
     <<"p:INBOX", "p:inbox">>, <<"p:InBoX", "p:inbox">>,
     <<"h:Subject", "h:subject">>,
     <<"s:Hello World", "s:hello world">>,
-    <<"c:UTF-8", "c:utf-8">>, <<"c:US-ASCII", "c:us-ascii">>,
+    <<"c:UTF-8", "c:utf-8">>, <<"c:US-ASCII", "c:us-ascii">>, <<"mech:plain", "mech:PLAIN">>,
+    <<"f:\\seen", "f:\\Seen">>, <<"f:\\deleted", "f:\\Deleted">>, <<"f:\\flagged", "f:\\Flagged">>,
+    <<"f:\\answered", "f:\\Answered">>, <<"f:\\draft", "f:\\Draft">>, <<"f:\\recent", "f:\\Recent">>,
     <<"i:4:2", "i:2:4">>, <<"i:*:2", "i:2:*">> }
 Canon(t) == IF \E p \in FoldPairs : p[1] = t THEN (CHOOSE p \in FoldPairs : p[1] = t)[2] ELSE t
 CanonSeq(a) == [i \in 1..Len(a) |-> Canon(a[i])]
